@@ -23,6 +23,16 @@ CLAIMED = {
   text="Lock-manager discipline decided on all paths from every entry point of the package: guarded state only touched with the mutex held (lock-set machine with inlining), compatibility matrix and release symmetry as extracted tables, every release re-examines the queue before the mutex is dropped, the cancellation arm reconciles a concurrent grant under the mutex. Schedules are covered because the rules quantify over program paths; fairness is not decided.",
   design_ref="DESIGN.md §3 C15",
   technique="lock-set path analysis over SSA + table extraction (static analysis)"),
+ "C05": dict(
+  category="other",
+  text="For every path from every entry point of package command (so for every interleaving of writers and every crash/restart point that re-runs Init): chain head store, transaction-id store and the hand-off to the batcher lie in one uninterrupted region of Commander.mu; the appended value is the chained head built on the current head; the stored id is lastTXID+1 and is the id given to the log; reads of the counters hold the mutex; single batch worker, FIFO pending under its mutex; Init reloads head and last id from the store before the worker starts; hash inputs. Hash values and PostgreSQL atomicity are not decided.",
+  design_ref="DESIGN.md §3 C05",
+  technique="mutex-region path state machine over SSA with context-sensitive inlining + SSA provenance (static analysis)"),
+ "C06": dict(
+  category="other",
+  text="Acknowledgement ordering on every path: run() hands out the executor's log only after receiving on its done channel; every hand-off happens inside an executor run by run() (or is passed up with its channel); done is closed only in the batcher callback or on the dry-run edge; batch callbacks fire only from batcherJob.Terminated, which Runner.Run invokes only on jobs received from the channel the worker feeds on the nil-error edge of InsertLogs; a failing InsertLogs ends in panic on all paths; InsertLogs runs inside one RunInTx and drops no error; no executor returns an error after a hand-off.",
+  design_ref="DESIGN.md §3 C06",
+  technique="path state machines over SSA (dominance of ack by wait, error-edge analysis), who-may-call, error-discipline check (static analysis)"),
 }
 
 NOT_APPLICABLE = {
